@@ -118,6 +118,8 @@ pub enum Mode {
     Yield1,
     /// wakes itself and returns Pending at every poll (until the drain flag is set)
     YieldInf,
+    /// wakes itself and returns Pending once, then parks like a Gate (pending until completed)
+    YieldGate,
     /// like Gate, but at every poll also invokes the stored waker of child `relay_target`
     Relay,
     /// panics (unwinds through the crate) at its first poll, afterwards behaves like a released Gate
@@ -1050,6 +1052,16 @@ fn script_poll<O: Out>(id: u32, addr: usize, cx: &mut Context<'_>) -> Poll<O> {
                         } else {
                             c.yielded += 1;
                             Act::WakeSelfPending
+                        }
+                    }
+                    Mode::YieldGate => {
+                        if c.released || draining {
+                            Act::Complete
+                        } else if c.yielded < 1 {
+                            c.yielded += 1;
+                            Act::WakeSelfPending
+                        } else {
+                            Act::Pending
                         }
                     }
                     Mode::YieldInf => {
